@@ -5,8 +5,8 @@ import glob, json, os, shutil, subprocess, sys
 ROOT = "/verif/seeded"
 NEEDS = json.load(open("/verif/tools/seeded_needs.json"))
 ids = sys.argv[1:] or sorted(d for d in os.listdir(ROOT) if os.path.isdir(os.path.join(ROOT, d)))
-if subprocess.run(["git", "-C", "/repo", "diff", "--quiet"]).returncode != 0:
-    sys.exit("/repo is dirty, refusing")
+sys.path.insert(0, "/verif")
+from gemsim import selftest
 for tag in ids:
     d = os.path.join(ROOT, tag)
     info = NEEDS.get(tag, {})
@@ -14,12 +14,15 @@ for tag in ids:
     runs = str(info.get("runs", 6000))
     scratch = f"/tmp/seeded_scratch_{tag}"
     shutil.rmtree(scratch, ignore_errors=True)
-    subprocess.check_call(["git", "-C", "/repo", "apply", os.path.join(d, "patch.diff")])
+    # a temp copy of /repo/gemclus with the change applied, selected through GEMSIM_REPO (same effect as git apply on
+    # /repo followed by git checkout, without disturbing background runs that read /repo)
+    root = selftest.make_mutant_copy([])
+    subprocess.check_call(["patch", "-p1", "-s", "-d", root, "-i", os.path.join(d, "patch.diff")])
     try:
-        env = dict(os.environ, GEMSIM_SCRATCH=scratch)
+        env = dict(os.environ, GEMSIM_SCRATCH=scratch, GEMSIM_REPO=root)
         r = subprocess.run(["/venv/bin/python", "/verif/gemsim/cli.py", "check", prop, "--runs", runs], env=env, capture_output=True, text=True)
     finally:
-        subprocess.check_call(["git", "-C", "/repo", "checkout", "--", "."])
+        shutil.rmtree(root, ignore_errors=True)
     run = json.load(open(os.path.join(d, "run.json"))) if os.path.exists(os.path.join(d, "run.json")) else {}
     run["check_rc"] = r.returncode
     json.dump(run, open(os.path.join(d, "run.json"), "w"))
